@@ -103,4 +103,12 @@ PROPS = {
             {"pkg": "./c12", "harness": "Harness_libmacros", "setup": "Setup", "params": {"quick": {"maxops": 3}, "thorough": {"maxops": 5}}, "wall": {"thorough": "40m"}},
         ],
     },
+    "C20": {
+        "technique": "bounded symbolic execution of call.Call/CallOverrideFN/_args/_args_ctx/adapters/_recover with an engine model of reflect (Value.Call with count and assignability checks): contract table over 16 signature shapes x symbolic declared bounds in [-1,4] x argument lists of length 0..4 over six value kinds x five function behaviours, from a dotted and an undotted module; SMT (z3) decides assertions",
+        "outside": "reflect itself is a model (every counterexample is replayed natively, so a model error cannot cause a false alarm but could hide a violation); signature shapes outside the 16 listed; more than 4 arguments",
+        "runs": [
+            {"pkg": "./c20", "harness": "Harness_contract", "setup": "Setup", "params": {"quick": {}, "thorough": {}}},
+            {"pkg": ".", "moddir": "harness-nodot", "harness": "Harness_register", "params": {"quick": {}, "thorough": {}}},
+        ],
+    },
 }
